@@ -114,6 +114,15 @@ func (g *G) buildPaths() {
 			add(grl.P(f+".AS").Idx(lit(i)), grl.TString, true, true)
 			add(grl.P(f+".AF").Idx(lit(i)), grl.TFloat, false, true)
 		}
+		for i := int64(0); i < 2; i++ {
+			add(grl.P(f+".L").Idx(lit(i)).Dot("X"), grl.TInt, true, true)
+			add(grl.P(f+".L").Idx(lit(i)).Dot("Y"), grl.TString, true, true)
+			add(grl.P(f+".L").Idx(lit(i)).Dot("Z"), grl.TFloat, true, true)
+		}
+		for _, k := range []string{"k1", "k2"} {
+			add(grl.P(f+".MP").Idx(grl.LitStr(k)).Dot("X"), grl.TInt, true, true)
+			add(grl.P(f+".MP").Idx(grl.LitStr(k)).Dot("Y"), grl.TString, true, true)
+		}
 		for _, k := range []string{"k1", "k2"} {
 			add(grl.P(f+".M").Idx(grl.LitStr(k)), grl.TInt, true, true).mapEl = true
 			add(grl.P(f+".MS").Idx(grl.LitStr(k)), grl.TString, true, true).mapEl = true
@@ -284,6 +293,18 @@ func (g *G) Expr(t grl.Type, depth int, exact bool) *grl.Expr {
 		case 3:
 			return g.remember(t, grl.Bin("/", g.Expr(g.numType(), depth-1, false), lit(g.R.PickInt64(2, 4, 8))))
 		case 4:
+			if g.R.Chance(1, 3) {
+				// global math built-ins take float64 exactly
+				if g.R.Chance(1, 2) {
+					n := g.R.Range(1, 3)
+					args := make([]*grl.Expr, n)
+					for i := range args {
+						args[i] = g.Expr(grl.TFloat, 0, true)
+					}
+					return g.remember(t, &grl.Expr{K: "bfn", Fn: g.R.PickStr("Max", "Min"), Args: args})
+				}
+				return g.remember(t, &grl.Expr{K: "bfn", Fn: g.R.PickStr("Abs", "Floor", "Ceil", "Round", "Trunc"), Args: []*grl.Expr{g.Expr(grl.TFloat, 1, true)}})
+			}
 			return g.remember(t, g.call(grl.TFloat, depth))
 		default:
 			return g.remember(t, grl.Bin("+", g.Expr(grl.TInt, depth-1, false), g.Expr(grl.TFloat, depth-1, false)))
@@ -331,7 +352,11 @@ func (g *G) Expr(t grl.Type, depth int, exact bool) *grl.Expr {
 			fn := g.R.PickStr("Contains", "HasPrefix", "HasSuffix")
 			return g.remember(t, &grl.Expr{K: "vfn", L: g.atomStr(depth), Fn: fn, Args: []*grl.Expr{g.Expr(grl.TString, 0, false)}})
 		default:
-			switch g.R.Intn(3) {
+			switch g.R.Intn(5) {
+			case 3:
+				return &grl.Expr{K: "bfn", Fn: "StringContains", Args: []*grl.Expr{g.Expr(grl.TString, 0, false), g.Expr(grl.TString, 0, false)}}
+			case 4:
+				return &grl.Expr{K: "bfn", Fn: g.R.PickStr("IsTimeBefore", "IsTimeAfter"), Args: []*grl.Expr{grl.PathE(grl.P("F.T")), grl.PathE(grl.P("G.T"))}}
 			case 0:
 				return g.remember(t, g.call(grl.TBool, depth))
 			case 1:
@@ -360,7 +385,9 @@ func (g *G) atomStr(depth int) *grl.Expr {
 }
 
 func (g *G) vfnInt(depth int) *grl.Expr {
-	switch g.R.Intn(4) {
+	switch g.R.Intn(5) {
+	case 4:
+		return &grl.Expr{K: "bfn", Fn: g.R.PickStr("GetTimeYear", "GetTimeMonth", "GetTimeDay"), Args: []*grl.Expr{grl.PathE(grl.P(g.R.PickStr("F", "G") + ".T"))}}
 	case 0:
 		return &grl.Expr{K: "vfn", L: g.atomStr(depth), Fn: "Len"}
 	case 1:
@@ -638,6 +665,9 @@ func (g *G) fact() *grl.Fact {
 		A:   []int64{r.PickInt64(smallInts...), r.PickInt64(smallInts...), r.PickInt64(smallInts...)},
 		AS:  []string{smallStrs[r.Intn(len(smallStrs))], smallStrs[r.Intn(len(smallStrs))], "z"},
 		AF:  []float32{0.5, float32(smallFloats[r.Intn(len(smallFloats))]), 2},
+		L: []*grl.Sub{{X: r.PickInt64(smallInts...), Y: smallStrs[r.Intn(len(smallStrs))], Z: smallFloats[r.Intn(len(smallFloats))]},
+			{X: r.PickInt64(smallInts...), Y: "l1", Z: 1.25}},
+		MP: map[string]*grl.Sub{"k1": {X: r.PickInt64(smallInts...), Y: smallStrs[r.Intn(len(smallStrs))], Z: 0.75}, "k2": {X: r.PickInt64(smallInts...), Y: "m2", Z: 2.5}},
 		M:   map[string]int64{"k1": r.PickInt64(smallInts...), "k2": r.PickInt64(smallInts...)},
 		MS:  map[string]string{"k1": smallStrs[r.Intn(len(smallStrs))], "k2": "v"},
 	}
